@@ -433,7 +433,11 @@ class Vocab:
             kw['measurement_key_map'] = {mkeys[0]: mkeys[0] + '_x'}
         if cirq.is_parameterized(sub) and rng.random() < 0.4:
             kw['param_resolver'] = {'t': rng.choice([0.5, 0.1, self.u, 2])}
-        co = cirq.CircuitOperation(sub, qubit_map=qmap, **kw)
+        try:
+            co = cirq.CircuitOperation(sub, qubit_map=qmap, **kw)
+        except ValueError:          # e.g. a key map applied to keys that already carry a repetition path
+            free.extend(targets)
+            return None
         if keys and rng.random() < 0.15 and not cirq.is_measurement(sub):
             co = co.with_classical_controls(self.condition(keys))
         elif allow_known and rng.random() < 0.05:
@@ -560,7 +564,7 @@ class Adapter:
             payload = (co.repetitions, tuple(co.qubit_map.items()), tuple(co.measurement_key_map.items()),
                        tuple((str(k), str(v)) for k, v in co.param_resolver.param_dict.items()),
                        None if co.repetition_ids is None else tuple(co.repetition_ids), co.use_repetition_ids, co.repeat_until,
-                       tuple(o.classical_controls))
+                       tuple(o.classical_controls), tuple(o.tags))      # tags: part of what Moment equality compares
             return f'(Circ {self._id(self.p, payload)} {self.circuit(co.circuit)})'
         o = self.canon(o)
         u = o.untagged
